@@ -172,3 +172,34 @@ def uses(e, v):
     if k == 'field': return 1 if e[1] == v else 0
     if k in ('pt', 'tup'): return sum(uses(x, v) for x in e[1])
     return 0
+
+
+# ---- documented invocation forms -> shape signatures (to be matched against arm patterns)
+def arm_signature(items):
+    out = []
+    for it in items:
+        if it[0] == 'kw': out.append(it[1] + '=')
+        elif it[0] == 'pos': out.append('_')
+        elif it[0] == 'kwvec': out.append('%s=[%d]' % (it[1], len(it[2])))
+        elif it[0] == 'vec': out.append('[%d]' % len(it[1]))
+        elif it[0] == 'children': out.append('children')
+    return out
+
+def doc_signature(line):
+    """the shape of a documented form: positional / keyword= / [k] vectors / children, in written order; None if unreadable"""
+    m = re.match(r"\s*(\w+)!\((.*)\)\s*;?\s*$", line)
+    if not m: return None
+    name, body = m.group(1), m.group(2).replace('\\[', '[').replace('\\]', ']')
+    out = []
+    for p in split_top(body.replace(';', ',')):
+        p = p.strip()
+        if not p or p == '...': continue
+        if re.search(r"child(ren)?: Scad", p): out.append('children'); continue
+        m2 = re.match(r"(\w+)=\[(.*)\]$", p)
+        if m2: out.append('%s=[%d]' % (m2.group(1), len(split_top(m2.group(2))))); continue
+        m2 = re.match(r"\[(.*)\]$", p)
+        if m2: out.append('[%d]' % len(split_top(m2.group(1)))); continue
+        m2 = re.match(r"(\w+)=", p)
+        if m2: out.append(m2.group(1) + '='); continue
+        out.append('_')
+    return name, out
